@@ -10,7 +10,8 @@ Input : [threads, schedule] | [threads, schedule, hints]   thread = [ops, faults
            | ['outcome', kind, id] | 'startTestRun' | 'stopTestRun' | 'stop' | 'done' | 'shouldStop'
         faults = indices into the thread's own sequence of calls on the target: those calls raise
         schedule = list of thread ids (see harness/sched.py)
-Trace : [log, exc, finished]  log = [[tid, 'acq'] | [tid, 'rel'] | [tid, 'call', <call>, raised]]   (TTV/Drv/C12.lean)
+Trace : [log, exc, finished, sems, sem]  log = [[tid, 'acq'] | [tid, 'rel'] | [tid, 'tryacq', got it] | [tid, 'call', <call>, raised]];
+        sems = the counter of the (real, instrumented) semaphore read after every operation on it, sem = the counter at the end   (TTV/Drv/C12.lean)
 Real `ThreadsafeForwardingResult`s, one per real thread, share one target and one semaphore double; the
 deterministic scheduler decides who runs between two operations on the shared objects.
 """
@@ -175,12 +176,14 @@ class C12(Prop):
             'are frequent, also time(None); tags() with empty sets and with the same tag added and removed; a second outcome inside one startTest / stopTest bracket '
             '(what stdlib unittest emits for a failing body + failing tearDown), with test-local tags buffered and more tags() / time() between the two; failfast assigned on some forwarders; realisation hints that leave '
             'the prediction unchanged: all threads report the very same test objects / equal-but-not-identical ones, the empty test id, outcome arguments positional or by '
-            'keyword, err/reason instead of details (details=None), a second target object behind the same semaphore; '
-            'schedules: quick = every schedule with <= 2 pre-emptions of 7 small base programs '
+            'keyword, err/reason instead of details (details=None), a second target object behind the same semaphore; the semaphore is the real class, instrumented: a non-blocking acquire is an ordinary schedulable step and a release by a thread that holds nothing is performed (the counter is observed after every operation); '
+            'schedules: quick = every schedule with <= 2 pre-emptions of 8 small base programs '
             '+ random / bursty / few-pre-emption schedules of random programs; thorough adds every schedule with <= 3 pre-emptions for 2 threads and <= 2 for 3 '
             'threads, each also with every single fault position. non-trivial = at least two threads have a critical section; '
             'distinct = distinct input S-expression')
-    assumptions = ['threading.Semaphore(1) semantics are modelled (harness/sched.py double), not verified',
+    assumptions = ['the shared semaphore is a real threading.Semaphore(1), instrumented (harness/sched.py SchedSemaphore subclasses it): its operations and its counter are the stock ones; what the harness adds is the '
+                   'scheduling - a blocking acquire is offered to the scheduler only while the counter is not 0, a non-blocking acquire and a release always - and the observation (every operation logged, the counter read after each and at the end); '
+                   'that a blocking acquire waits exactly while the counter is 0 is the modelled part (Conc.stepThread)',
                    'translator tie (harness/tfrskel.py, TTV/Model/TfrSkel.lean): trusted are the interpreter\'s reading of sequencing / if / try-finally / tail return, '
                    'that each recognised statement is the one atomic step (acquire, release, one call on the target) or forwarder-local assignment its name says, and that '
                    'acquire/release do not raise; `_stop_if_failfast()` is read as the fact "if self.failfast: self.stop()" plus the table of the methods that call it (modelled by Conc.runOp, theorem C12_src_thread_steps)',
@@ -201,7 +204,7 @@ class C12(Prop):
                 'operation of one thread (one well-shaped block: time, startTest, time, tags, outcome, stopTest - cut only directly after a raising call, a '
                 'raising outcome still followed by stopTest), never interleaved; per thread exactly its own sequential call sequence (every outcome once, in order, '
                 'own start time and tags - EVERY outcome of a test replays the tags buffered for it, also a second outcome inside one startTest/stopTest bracket (C12_tags_survive_outcome, '
-                'C12_second_outcome_same_tags); stopTest() forgets the test-local ones); the semaphore is free at every operation boundary; no reachable state is stuck and every run terminates. The hand-written '
+                'C12_second_outcome_same_tags); stopTest() forgets the test-local ones); the semaphore is free at every operation boundary and its COUNTER is 1 when nobody is inside a section, 0 otherwise - never 2 - and reads 0 after every acquire, 1 after every release (C12_counter); every call on the target, control calls like stop() included, is made while the caller and nobody else is inside a section: a control call never lands inside another thread\'s block (C12_control_between_blocks); no reachable state is stuck and every run terminates. The hand-written '
                 'model is tied to the code by a differential check that drives real ThreadsafeForwardingResult objects in real threads under a deterministic '
                 'scheduler (bounded-pre-emption exhaustive + random schedules, injected faults), and by a translator tie: the order and try/finally structure of '
                 '_add_result_with_semaphore, startTestRun/stopTestRun/stop/done/shouldStop, startTest/stopTest/tags/time are re-read from real.py on every run '
@@ -209,7 +212,7 @@ class C12(Prop):
                 'block semantics is the interpretation of exactly these skeletons.',
         'note': 'partial by nature: the theorems cover every interleaving of the model\'s atomic steps (operations on the shared semaphore/target); CPython thread '
                 'pre-emption is reached only through the scheduler-driven correspondence. trusted: Lean kernel, the model TTV/Model/Conc.lean, harness/sched.py and '
-                'the plug-in; threading.Semaphore semantics modelled',
+                'the plug-in; the blocking behaviour of threading.Semaphore.acquire is modelled (the counter itself is the real one, observed)',
         'technique': 'Lean 4 invariant proof over a small-step interleaving semantics (all schedules, no bound), executable spec shared with a differential '
                      'correspondence check under a deterministic thread scheduler',
     }
@@ -254,6 +257,7 @@ class C12(Prop):
         for i, t in enumerate(threads):
             sch.spawn(i, worker(i, t[0], len(t) > 2 and t[2]))
         dl = sch.run()
+        self.sem = sem
         return sch, log, exc, dl
 
     def run_impl(self, inp):
@@ -265,7 +269,7 @@ class C12(Prop):
             e = sorted(sch.errors.items())[0][1]
             return ['raised', type(e).__name__]
         self.stats[id(inp)] = (sch.skipped, len(sch.picks), max(0, len(sch.picks) - (len(inp[1]) - sch.skipped)))
-        return [log, exc, dl is None and len(sch.done) == len(sch.order)]
+        return [log, exc, dl is None and len(sch.done) == len(sch.order), list(self.sem.sems), self.sem.value]
 
     def step_counts(self, threads):
         sch, log, exc, dl = self.execute([threads, []])     # (hints do not change the step counts)
@@ -377,6 +381,8 @@ class C12(Prop):
             # a test that starts exactly on the instant its predecessor ended on, next to a thread using the same instants
             [[[['time', some(1)]] + t(0) + [['startTest', 1], ['time', some(1)], ['outcome', 'skip', 1], ['stopTest', 1]], []],
              [[['time', some(1)]] + t(0, 'uxsuccess'), []]],
+            # stop() (and the other control calls) requested while another thread's block is in flight: it has to wait
+            [[t(0), []], [['stop'] + t(0, 'error') + ['shouldStop'], []]],
             # two outcomes inside one bracket (failing body + failing tearDown): both blocks carry the test's own tags
             [[[['tags', [0], []], ['startTest', 0], ['tags', [1], [0]], ['outcome', 'failure', 0], ['outcome', 'error', 0], ['stopTest', 0]] + t(1), []],
              [[['startTest', 0], ['tags', [2], []], ['outcome', 'error', 0], ['tags', [3], []], ['outcome', 'success', 0], ['stopTest', 0]], [6]]],
@@ -424,6 +430,10 @@ class C12(Prop):
             for f in range(12):
                 yield from self.systematic([[[x[0], [f] if j == ti else [], True] for j, x in enumerate(ff)]], 1)
         yield from self.systematic([three], 2)
+        # every control call requested at every point of another thread's block (they have to wait): <= 2 pre-emptions, also under failfast
+        for ctl in ('stop', 'startTestRun', 'stopTestRun', 'done', 'shouldStop'):
+            yield from self.systematic([[[t(0), []], [[ctl] + t(0, 'error'), []]]], 2)
+        yield from self.systematic([[[t(0, 'failure'), [], True], [['stop'] + t(0), []]]], 2)
         # two outcomes inside one startTest / stopTest bracket, test-local tags buffered: <= 2 pre-emptions, and every single fault position
         twice = [[[['startTest', 0], ['tags', [1], []], ['outcome', 'failure', 0], ['outcome', 'error', 0], ['stopTest', 0]] + t(1), []],
                  [[['tags', [2], []]] + t(0, 'skip'), []]]
@@ -441,7 +451,7 @@ class C12(Prop):
 
     # ----- evidence
     def nontrivial(self, inp, trace):
-        if not isinstance(trace, list) or len(trace) != 3 or not isinstance(trace[0], list):
+        if not isinstance(trace, list) or len(trace) != 5 or not isinstance(trace[0], list):
             return False
         return len({e[0] for e in trace[0] if isinstance(e, list) and e[1] == 'acq'}) >= 2
 
@@ -483,7 +493,7 @@ class C12(Prop):
         if st:
             f.append('disabled-picks=%s' % ('0' if st[0] == 0 else '1+'))
             f.append('drained=%s' % ('0' if st[2] == 0 else '1+'))
-        if isinstance(trace, list) and len(trace) == 3 and isinstance(trace[0], list):
+        if isinstance(trace, list) and len(trace) == 5 and isinstance(trace[0], list):
             log = trace[0]
             last_end = {}
             for k, e in enumerate(log):          # a block whose start time is the explicit instant the thread's previous block ended on
